@@ -42,11 +42,46 @@ def writer_tokens(prog, ty):
         looped = True
         evs = evs[0][2]
     toks = []
+    def float_alt(e):
+        """the `float` writer: INF / -INF / NAN for the three specials, Display of the value otherwise (a cascade of
+        alternatives) — one number"""
+        leaves = []
+
+        def walk(evs_):
+            for x in evs_:
+                if x[0] == "alt":
+                    for a in x[1]:
+                        if a[2] == "err":
+                            continue
+                        if not walk(a[1]):
+                            return False
+                elif x[0] == "W" and x[1] == "chars":
+                    leaves.append(x[2])
+                else:
+                    return False
+            return True
+        if not walk([e]):
+            return None
+        num = None
+        for t in leaves:
+            if t[0] in ("str", "display") and isinstance(t[-1], tuple) and t[-1][0] == "c" and t[-1][1] in ("INF", "-INF", "NAN", "+INF"):
+                continue
+            if t[0] == "display" and t[1] in ("f32", "f64"):
+                if num is not None and num[2] != t[2]:
+                    return None
+                num = ("num", t[1], t[2])
+                continue
+            return None
+        return num
     for e in evs:
         if e[0] != "W" or e[1] != "chars":
             if e[0] == "alt":
                 # only error alternatives of `?` are tolerated
                 if all(a[2] == "err" or not a[1] for a in e[1]):
+                    continue
+                fa = float_alt(e)
+                if fa is not None:
+                    toks.append(fa)
                     continue
             raise sym.Unsupported(f"writer event {e[0]}:{e[1] if len(e) > 1 else ''} in a token-stream type")
         t = e[2]
